@@ -92,6 +92,7 @@ pub struct Interp<'c, K: KeyT, V: ValT> {
     pub c13_peak_live: usize,
     /// a destructor panic was injected: leaked elements / blocks are allowed from now on
     leak_ok: bool,
+    trace: bool,
 }
 
 fn keep(id: u32, salt: u64, pct: u64) -> bool {
@@ -138,6 +139,7 @@ where
             c13_bound: 0,
             c13_peak_live: 0,
             leak_ok: false,
+            trace: case.h("trace") != 0,
         }
     }
 
@@ -558,6 +560,20 @@ where
                 drop(old);
                 if s.map.capacity() < cap {
                     bad!("C08", "with_capacity-capacity", "with_capacity({cap}) gave capacity {}", s.map.capacity());
+                }
+            }
+            ops::REHASH_SETUP => {
+                // fill to capacity, then thin out to just below half the load limit: the next
+                // insertion of an absent key finds growth_left == 0 and (if the removals left
+                // tombstones) rehashes in place
+                self.exec(&Op::new(ops::FILL_TO_CAPACITY, &[]))?;
+                let d = Self::dump_of(&self.slots[self.cur].map);
+                if !d.is_singleton {
+                    let keep = (d.max_load() / 2).saturating_sub(1 + (a[0] % 7) as usize);
+                    while self.slots[self.cur].model.len() > keep {
+                        let id = self.slots[self.cur].model[0].id;
+                        self.remove_key(self.cur, id, 0)?;
+                    }
                 }
             }
             ops::ITER => self.iter_op(a[0] % 9, a[1], a[2] % 5)?,
@@ -1314,7 +1330,9 @@ where
             self.pre_labels(op, &before);
         }
         world::clear_panic_messages();
+        let counts0 = world::counts();
         let r = catch_unwind(AssertUnwindSafe(|| self.exec(op)));
+        let counts_after_exec = world::counts();
         match r {
             Err(payload) => {
                 let msg = world::last_panic_message().unwrap_or_else(|| "<no message>".into());
@@ -1339,7 +1357,19 @@ where
         if let Err(b) = self.check_state(key) {
             return Err(self.to_violation(step, b));
         }
+        let l0 = self.labels;
+        self.labels = 0;
         self.note_transition(&before, op);
+        let step_labels = self.labels;
+        self.labels |= l0;
+        if self.trace {
+            let c = counts_after_exec;
+            let mut d = [0u64; world::NCLASS];
+            for i in 0..world::NCLASS {
+                d[i] = c[i] - counts0[i];
+            }
+            self.out.per_step.push((step_labels, d));
+        }
         self.c13_track();
         Ok(())
     }
